@@ -5,6 +5,7 @@ import Mathlib.Tactic.Ring
 import Mathlib.Tactic.Positivity
 import Mathlib.Tactic.NormNum
 import Mathlib.Data.List.Nodup
+import Mathlib.Tactic.Tauto
 /-!
 # Dual contouring: index arithmetic, quad topology and orientation, clipping
 
@@ -12,6 +13,7 @@ All statements are for every grid size.
 -/
 namespace M3d.DC
 set_option linter.unusedSimpArgs false
+set_option linter.unusedSectionVars false
 
 /-! ### `cubeAt` -/
 
@@ -485,8 +487,7 @@ theorem quads_count (nx ny rows : Nat) (lab : Lab) (e : EdgeC) :
     ((quads nx ny rows lab).map Prod.fst).count e =
       if validEdge nx ny rows e = true ∧ active lab e = true then 1 else 0 := by
   have hmap : (quads nx ny rows lab).map Prod.fst = (allEdges nx ny rows).filter (active lab) := by
-    unfold quads; rw [List.map_map]; exact List.map_id' _ (fun _ => rfl) |>.trans rfl |> fun h => by
-      simpa [Function.comp_def] using h
+    unfold quads; rw [List.map_map]; simp [Function.comp_def]
   rw [hmap]
   have hnd : ((allEdges nx ny rows).filter (active lab)).Nodup := (allEdges_nodup nx ny rows).filter _
   by_cases h : validEdge nx ny rows e = true ∧ active lab e = true
@@ -588,13 +589,13 @@ theorem quadOrientedOk_interior (nx ny rows : Nat) (lab : Lab) (e : EdgeC)
   match ax, h with
   | 0, h =>
     simp only [interiorEdge, Bool.and_eq_true, decide_eq_true_eq] at h
-    exact quad_orientation_cells ⟨0, x, y, z⟩ (by simp) (by intro; simp only; omega) (by intro; simp only; omega) (by decide) _
+    exact quad_orientation_cells ⟨0, x, y, z⟩ (by simp) (by intro; simp only; omega) (by intro; simp only; omega) (by simp) _
   | 1, h =>
     simp only [interiorEdge, Bool.and_eq_true, decide_eq_true_eq] at h
-    exact quad_orientation_cells ⟨1, x, y, z⟩ (by intro; simp only; omega) (by simp) (by intro; simp only; omega) (by decide) _
+    exact quad_orientation_cells ⟨1, x, y, z⟩ (by intro; simp only; omega) (by simp) (by intro; simp only; omega) (by simp) _
   | 2, h =>
     simp only [interiorEdge, Bool.and_eq_true, decide_eq_true_eq] at h
-    exact quad_orientation_cells ⟨2, x, y, z⟩ (by intro; simp only; omega) (by intro; simp only; omega) (by simp) (by decide) _
+    exact quad_orientation_cells ⟨2, x, y, z⟩ (by intro; simp only; omega) (by intro; simp only; omega) (by simp) (by simp) _
   | n + 3, h => simp [interiorEdge] at h
 
 /-! ### clipping and the winding of a quad round its edge, over a linear ordered field -/
@@ -602,7 +603,7 @@ theorem quadOrientedOk_interior (nx ny rows : Nat) (lab : Lab) (e : EdgeC)
 section field
 variable {K : Type} [Field K] [LinearOrder K] [IsStrictOrderedRing K]
 
-theorem clip1_in (p lo hi m : K) (hm : 0 ≤ m) (h2 : 2 * m ≤ hi - lo) :
+theorem clip1_in (p lo hi m : K) (_hm : 0 ≤ m) (h2 : 2 * m ≤ hi - lo) :
     lo + m ≤ clip1 p lo hi m ∧ clip1 p lo hi m ≤ hi - m := by
   unfold clip1 smin smax
   by_cases h1 : p < lo + m
@@ -617,6 +618,97 @@ theorem clip1_in (p lo hi m : K) (hm : 0 ≤ m) (h2 : 2 * m ≤ hi - lo) :
 
 /-- `u × v` in the plane orthogonal to the edge. -/
 def cross2 (u v : K × K) : K := u.1 * v.2 - u.2 * v.1
+
+
+theorem cross2_antisymm (u v : K × K) : cross2 v u = -cross2 u v := by unfold cross2; ring
+
+/-- How the harness's exact crossing counter scores triangle `a b c` (projected along the lattice
+edge, the edge at the origin): `2` for a hit strictly inside, `1` for a hit on the boundary, `0`
+for a miss — the three orientation determinants `a×b, b×c, c×a` must not have both signs. -/
+def hitHalf (a b c : K × K) : Nat :=
+  let o1 := cross2 a b; let o2 := cross2 b c; let o3 := cross2 c a
+  if (0 < o1 ∨ 0 < o2 ∨ 0 < o3) ∧ (o1 < 0 ∨ o2 < 0 ∨ o3 < 0) then 0
+  else if o1 = 0 ∨ o2 = 0 ∨ o3 = 0 then 1 else 2
+
+/-- Sign of the normal component along the edge (twice the signed projected area). -/
+def areaSign (a b c : K × K) : K := cross2 a b + cross2 b c + cross2 c a
+
+/-- Four points in the four open quadrants round the edge, in the cyclic order of `EdgeCubes`
+(`(+,−), (−,−), (−,+), (+,+)` in the plane `(axis+1, axis+2)`). -/
+def InQuadrants (p0 p1 p2 p3 : K × K) : Prop :=
+  (0 < p0.1 ∧ p0.2 < 0) ∧ (p1.1 < 0 ∧ p1.2 < 0) ∧ (p2.1 < 0 ∧ 0 < p2.2) ∧ (0 < p3.1 ∧ 0 < p3.2)
+
+theorem quadrant_crosses (p0 p1 p2 p3 : K × K) (h : InQuadrants p0 p1 p2 p3) :
+    cross2 p0 p1 < 0 ∧ cross2 p1 p2 < 0 ∧ cross2 p2 p3 < 0 ∧ cross2 p3 p0 < 0 := by
+  obtain ⟨⟨a1, a2⟩, ⟨b1, b2⟩, ⟨c1, c2⟩, ⟨d1, d2⟩⟩ := h
+  unfold cross2
+  refine ⟨?_, ?_, ?_, ?_⟩
+  · nlinarith [mul_pos a1 (neg_pos.2 b2), mul_pos (neg_pos.2 a2) (neg_pos.2 b1)]
+  · nlinarith [mul_pos (neg_pos.2 b1) c2, mul_pos (neg_pos.2 b2) (neg_pos.2 c1)]
+  · nlinarith [mul_pos (neg_pos.2 c1) d2, mul_pos c2 d1]
+  · nlinarith [mul_pos d1 (neg_pos.2 a2), mul_pos d2 a1]
+
+/-- A fan triangulation `(a,b,c), (a,c,d)` of a quad whose four consecutive determinants are
+negative is hit by the edge exactly once (score 2 in half-units: one triangle strictly, or both on
+their common diagonal), and every triangle that is hit has its normal along `−axis`. -/
+theorem fan_hit_once (a b c d : K × K) (hab : cross2 a b < 0) (hbc : cross2 b c < 0)
+    (hcd : cross2 c d < 0) (hda : cross2 d a < 0) :
+    hitHalf a b c + hitHalf a c d = 2 ∧
+    (hitHalf a b c ≠ 0 → areaSign a b c < 0) ∧ (hitHalf a c d ≠ 0 → areaSign a c d < 0) := by
+  have hca : cross2 c a = -cross2 a c := cross2_antisymm a c
+  rcases lt_trichotomy (cross2 a c) 0 with h | h | h
+  · -- the edge passes strictly inside (a, c, d)
+    have h1 : hitHalf a b c = 0 := by
+      unfold hitHalf; simp only; rw [if_pos]; exact ⟨Or.inr (Or.inr (by rw [hca]; linarith)), Or.inl hab⟩
+    have h2 : hitHalf a c d = 2 := by
+      unfold hitHalf; simp only
+      rw [if_neg, if_neg]
+      · intro hh; rcases hh with hh | hh | hh <;> linarith
+      · intro hh; rcases hh.1 with hh | hh | hh <;> linarith
+    refine ⟨by rw [h1, h2], fun hh => absurd h1 hh, fun _ => ?_⟩
+    unfold areaSign; linarith
+  · have h1 : hitHalf a b c = 1 := by
+      unfold hitHalf; simp only
+      rw [if_neg, if_pos]
+      · exact Or.inr (Or.inr (by rw [hca, h]; simp))
+      · intro hh; rcases hh.1 with hh | hh | hh
+        · linarith
+        · linarith
+        · rw [hca, h] at hh; simp at hh
+    have h2 : hitHalf a c d = 1 := by
+      unfold hitHalf; simp only
+      rw [if_neg, if_pos]
+      · exact Or.inl h
+      · intro hh; rcases hh.1 with hh | hh | hh <;> linarith
+    refine ⟨by rw [h1, h2], fun _ => ?_, fun _ => ?_⟩
+    · unfold areaSign; rw [hca, h]; linarith
+    · unfold areaSign; rw [h]; linarith
+  · have h1 : hitHalf a b c = 2 := by
+      unfold hitHalf; simp only
+      rw [if_neg, if_neg]
+      · intro hh; rcases hh with hh | hh | hh
+        · linarith
+        · linarith
+        · rw [hca] at hh; linarith
+      · intro hh; rcases hh.1 with hh | hh | hh
+        · linarith
+        · linarith
+        · rw [hca] at hh; linarith
+    have h2 : hitHalf a c d = 0 := by
+      unfold hitHalf; simp only; rw [if_pos]; exact ⟨Or.inl h, Or.inr (Or.inl hcd)⟩
+    refine ⟨by rw [h1, h2], fun _ => ?_, fun hh => absurd h2 hh⟩
+    unfold areaSign; rw [hca]; linarith
+
+theorem hitHalf_flip (a b c : K × K) : hitHalf c b a = hitHalf a b c := by
+  unfold hitHalf
+  simp only [cross2_antisymm b c, cross2_antisymm a b, cross2_antisymm c a, neg_pos, neg_neg_iff_pos, neg_lt_zero,
+    neg_eq_zero, Left.neg_neg_iff]
+  congr 1
+  · apply propext; constructor <;> (rintro ⟨h1, h2⟩; constructor <;> tauto)
+  · congr 1; apply propext; tauto
+
+theorem areaSign_flip (a b c : K × K) : areaSign c b a = -areaSign a b c := by
+  unfold areaSign cross2; ring
 
 end field
 
